@@ -640,6 +640,11 @@ def judge(ctx, group, results, tags, verdicts):
                 key = 'C14.worker-node-uids'
                 what += ('; the exports coincide except for the uids of graph nodes: with a non-identity adapter the evaluated graph '
                          'is adapted again inside the worker process, whose os.urandom is not the seeded replacement')
+            elif cl == 'CWorkersRepeat' and set(cfg.get('crossover', [])) & HASH_SENSITIVE_CROSSOVERS and \
+                    any(r.get('node_uids_not_in_stream', 0) > 0 for r in results if r['job']['run'] in ('j2', 'j2r')):
+                key = 'C14.hashseed-dependence'
+                what += ('; node uids made inside the worker processes are not seeded (C14.worker-node-uids) and crossover types %s '
+                         'choose from list(set(nodes)), whose order is the order of hash(uid)' % sorted(set(cfg.get('crossover', [])) & HASH_SENSITIVE_CROSSOVERS))
             elif cl == 'CWorkers':
                 ur1 = results[0].get('urandom', {})
                 ur2 = next((r.get('urandom', {}) for r in results if r['job']['clause'] == 'CWorkers'), {})
